@@ -166,11 +166,15 @@ class Loop(abc.ABC, Generic[_T]):
         if clear_next:
             world_handle.clear()
 
-        self._current_world_handle = world_handle
-        self._current_world = world_handle()
+        # Nothing changes if the next world cannot be retrieved (eg.
+        # its loading quits the loop)
+        next_world = world_handle()
 
-        assert isinstance(self._current_world, World), \
-            '%s is not of type World' % self._current_world
+        assert isinstance(next_world, World), \
+            '%s is not of type World' % next_world
+
+        self._current_world_handle = world_handle
+        self._current_world = next_world
 
     @property
     def current_world(self) -> Optional[_T]:
